@@ -3,6 +3,7 @@
 // uses POSIX semaphores and <thread> through the name real_thread to avoid the macros.
 #include "simsched.h"
 #include <semaphore.h>
+#include <sys/single_threaded.h>
 #include <pthread.h>
 #include <unordered_map>
 #include <cstring>
@@ -179,9 +180,11 @@ static void mon_violation(const std::string &cls, const std::string &detail) {
   if (S.res.mon.size() < 8) S.res.mon.push_back({cls, detail, (uint32_t)S.res.steps});
 }
 
+static FILE *g_dump = nullptr;   // debugging aid: SIM_DUMP_EVENTS=<file> appends every recorded event (never set by the checks)
 static void record(int kind, int obj, long a) {
   ThreadRec *me = S.cur;
   S.res.steps++;
+  if (g_dump) fprintf(g_dump, "%ld t%d %s obj=%d a=%ld\n", S.res.steps, me->id, ev_name(kind), obj, a);
   Event e{(uint32_t)S.res.steps, (uint8_t)me->id, (uint8_t)kind, obj, a};
   if (S.cfg.keep_events && kind != EV_MEM) S.res.events.push_back(e);
   uint64_t h = S.res.trace_hash;
@@ -700,8 +703,13 @@ void session_begin(const SchedConfig &cfg) {
   S.rng.reseed(cfg.seed);
   S.res = SchedResult();
   S.replay_pos = 0;
+  // libstdc++ counts references without atomics while glibc says the process has never had a second thread; that is true
+  // for the first operation of a process only (and again in a forked child), and would make its instruction stream - and
+  // in 'tsi' builds its trace - differ from every later one
+  __libc_single_threaded = false;
   S.spurious_left = cfg.max_spurious;
   S.timeouts_left = cfg.max_timeouts;
+  { static bool looked = false; if (!looked) { looked = true; if (const char *f = getenv("SIM_DUMP_EVENTS")) g_dump = fopen(f, "a"); } if (g_dump) fprintf(g_dump, "== session\n"); }
   S.mtx_id.clear(); S.cv_id.clear(); S.mtx_vc.clear(); S.obj_hash.clear(); S.atom_vc.clear();
   g_shadow.clear();
   next_mtx_id = 0; next_cv_id = 0;
